@@ -59,7 +59,9 @@ def pick_functions(ctx, fns):
     only = os.environ.get("VERIF_FUNCS")             # replay / debugging: an explicit list
     if only:
         return [f for f in fns if f in only.split(",")]
-    if not ctx.quick or os.environ.get("VERIF_ALL_FUNCS"):
+    # every driven function in the quick tier too (the whole contract runs in well under a minute); VERIF_THIRD=1 restores
+    # the seeded third of earlier versions
+    if not ctx.quick or not os.environ.get("VERIF_THIRD"):
         return fns
     k = max(20, (len(fns) + 2) // 3)
     # persistent objects (follow-up probes) and the multi-block blob-growing drivers are part of every quick run
